@@ -50,7 +50,12 @@ def ob_taps(W, halfp, ks):
         taps = D.lagrange_taps(rnp.array([d]), halfp)
     W.goal("shape", tuple(taps.shape) == (1, 2 * halfp))
     for k in ks:
-        W.goal("tap[%d]=textbook weight" % k, W.eq(taps[0][k], lag_weight(d, k, halfp)))
+        # compared on the scale of the weight itself (the outer weights of a high-order stencil are tiny: 1e-30 at order 111):
+        # both sides are divided by |weight at d = 1/2|, a concrete non-zero rational
+        sc = 1 / abs(lag_weight(F(1, 2), k, halfp))
+        if not W.sym:
+            sc = float(sc)
+        W.goal("tap[%d]=textbook weight" % k, W.eq(taps[0][k] * sc, lag_weight(d, k, halfp) * sc))
     if ks == list(range(2 * halfp)) or len(ks) == 2 * halfp:
         W.goal("sum=1", W.eq(sum(taps[0][k] for k in range(2 * halfp)), 1))
 
@@ -201,7 +206,7 @@ def ob_df(W, inplace, index=None):
     W.goal("called-once-per-selected-numeric-column", len(calls) == 2)
     if len(calls) == 2:
         W.goal("column-data", rnp.array_equal(calls[0][0], before["a"].to_numpy()) and rnp.array_equal(calls[1][0], before["b"].to_numpy()))
-        W.goal("shift=seconds*fs", W.And(W.eq(calls[0][1], sec * fs), W.eq(calls[1][1], sec * fs)))
+        W.goal("shift=seconds*fs", W.And(W.eq(calls[0][1], sec * fs, margin=F(1, 10 ** 6)), W.eq(calls[1][1], sec * fs, margin=F(1, 10 ** 6))))
     W.goal("input-frame-untouched", before.equals(df))
     W.goal("same rows, same index", len(out) == len(before) and list(out.index) == list(before.index))
     tgt = (lambda c: c) if inplace else (lambda c: c + "_shifted")
@@ -220,6 +225,10 @@ def obligations(tier):
             step = 4 if hp <= 28 else 8
             for i in range(0, 2 * hp, step):
                 obs.append({"name": "taps/order%d/k%d" % (2 * hp - 1, i), "fn": "ob_taps", "params": {"halfp": hp, "ks": ks[i:i + step]}, "timeout": 60 if tier == "quick" else 300, "weight": hp * 2})
+    if tier == "quick":
+        # spot obligations at high orders (the full tap sets are in the thorough tier): the outermost and the central weights
+        for hp in (36, 56):
+            obs.append({"name": "taps/order%d/spot" % (2 * hp - 1), "fn": "ob_taps", "params": {"halfp": hp, "ks": [0, 1, hp - 1, hp, 2 * hp - 1]}, "timeout": 60, "weight": hp})
     n = 7 if tier == "quick" else 9
     for order in ((1, 3, 5) if tier == "quick" else (1, 3, 5, 7, 9)):
         obs.append({"name": "timeshift/const/order%d" % order, "fn": "ob_shift_const", "params": {"n": n, "order": order, "smax": n + 3}, "fork": True, "max_paths": 400, "weight": 20, "timeout": 30 if tier == "quick" else 200})
